@@ -24,8 +24,10 @@ def CkLaw (cksum : Bytes → Bytes) : Prop := ∀ p, (cksum p).length = 4
 /-- a checksum function for the non-vacuity examples: length mod 256, first byte, 7, 7 -/
 def ck0 : Bytes → Bytes := fun p => [UInt8.ofNat p.length, p.headD 0, 7, 7]
 theorem ck0_law : CkLaw ck0 := fun _ => rfl
-/-- a configuration for the examples -/
-def cfg0 : Cfg := ⟨[0xe3, 0xe1, 0xf3, 0xe8], 5, 9⟩
+/-- a configuration for the examples (magic test first, as in the pinned code) -/
+def cfg0 : Cfg := ⟨[0xe3, 0xe1, 0xf3, 0xe8], 5, 9, false⟩
+/-- the same with the size test first -/
+def cfg1 : Cfg := ⟨[0xe3, 0xe1, 0xf3, 0xe8], 5, 9, true⟩
 
 /-! ## 1. Header layout -/
 
@@ -292,17 +294,27 @@ theorem frame_roundtrip_partial (cfg : Cfg) (cksum : Bytes → Bytes) (hm : cfg.
 
 /-- **never_corrupt**: whatever the byte stream (so: whatever was corrupted, anywhere), a
     delivered `(command, payload)` sits in the stream behind a 24-byte header carrying the
-    right magic, this payload's length, **this payload's checksum**, and the command -/
+    right magic, this payload's length, **this payload's checksum**, and the command - and that
+    header stands exactly where the decoder was after the earlier outcomes: what precedes it is
+    the concatenation of the items (header + consumed bytes) of the outcomes before it, what
+    follows the payload is decoded next. -/
 theorem never_corrupt (cfg : Cfg) (cksum : Bytes → Bytes) (s c p : Bytes)
     (h : Out.msg c p ∈ decode cfg cksum s) :
-    ∃ pre hd post, s = pre ++ (hd ++ (p ++ post)) ∧ hd.length = 24 ∧
+    ∃ (items : List Item) (hd post : Bytes),
+      s = (items.map Item.bytes).flatten ++ (hd ++ (p ++ post)) ∧
+      (∀ i ∈ items, i.WF cfg) ∧
+      decode cfg cksum s =
+        items.map (Item.out cfg cksum) ++ Out.msg c p :: decode cfg cksum post ∧
+      hd.length = 24 ∧
       hMagic hd = cfg.magic ∧ hCk hd = cksum p ∧ hLen hd = p.length ∧
       rstripNul (hCmd hd) = c ∧ oversized cfg c p.length = false := by
-  obtain ⟨items, rest, e1, e2, e3, _⟩ := decode_spec cfg cksum s.length s rfl
-  rw [e3, List.mem_map] at h
-  obtain ⟨i, hi, ho⟩ := h
+  obtain ⟨items, rest, e1, e2, e3, e4⟩ := decode_spec cfg cksum s.length s rfl
+  have h' := h
+  rw [e3, List.mem_map] at h'
+  obtain ⟨i, hi, ho⟩ := h'
   obtain ⟨as, bs, rfl⟩ := List.append_of_mem hi
   obtain ⟨hl, hb⟩ := e2 i hi
+  have ho' := ho
   unfold Item.out at ho
   cases hp : parseHeader cfg i.header with
   | error e => rw [hp] at ho; cases ho
@@ -317,9 +329,14 @@ theorem never_corrupt (cfg : Cfg) (cksum : Bytes → Bytes) (s c p : Bytes)
       simp only [Out.msg.injEq] at ho
       obtain ⟨rfl, rfl⟩ := ho
       obtain ⟨m1, m2, m3, m4, m5⟩ := (parseHeader_ok_iff cfg _ _ _ _).1 hp
-      refine ⟨(as.map Item.bytes).flatten, i.header, (bs.map Item.bytes).flatten ++ rest,
-        ?_, hl, m1, ?_, ?_, m2.symm, ?_⟩
+      have hbs : ∀ x ∈ bs, x.WF cfg := fun x hx => e2 x (by simp [hx])
+      have hpost : decode cfg cksum ((bs.map Item.bytes).flatten ++ rest) =
+          bs.map (Item.out cfg cksum) := by
+        rw [decode_items cfg cksum bs hbs rest, decode_eq, e4]; simp
+      refine ⟨as, i.header, (bs.map Item.bytes).flatten ++ rest, ?_,
+        fun x hx => e2 x (by simp [hx]), ?_, hl, m1, ?_, ?_, m2.symm, ?_⟩
       · rw [e1]; simp [Item.bytes]
+      · rw [e3, hpost, ← ho']; simp
       · rw [← m4, hck]
       · rw [← m3, hb]
       · rw [hb]; exact m5
@@ -327,12 +344,19 @@ theorem never_corrupt (cfg : Cfg) (cksum : Bytes → Bytes) (s c p : Bytes)
 /-- the reader on chunks: same statement for `run` -/
 theorem never_corrupt_chunks (cfg : Cfg) (cksum : Bytes → Bytes) (chunks : List Bytes) (c p : Bytes)
     (h : Out.msg c p ∈ run cfg cksum BQ.empty chunks) :
-    ∃ pre hd post, chunks.flatten = pre ++ (hd ++ (p ++ post)) ∧ hd.length = 24 ∧
+    ∃ (items : List Item) (hd post : Bytes),
+      chunks.flatten = (items.map Item.bytes).flatten ++ (hd ++ (p ++ post)) ∧
+      (∀ i ∈ items, i.WF cfg) ∧
+      run cfg cksum BQ.empty chunks =
+        items.map (Item.out cfg cksum) ++ Out.msg c p :: decode cfg cksum post ∧
+      hd.length = 24 ∧
       hMagic hd = cfg.magic ∧ hCk hd = cksum p ∧ hLen hd = p.length := by
-  rw [run_eq_decode cfg cksum _ BQ.empty chunks rfl BQ.empty_inv] at h
-  simp only [BQ.stream, BQ.empty, List.flatten_nil, List.nil_append] at h
-  obtain ⟨pre, hd, post, a, b, c1, d, e, _⟩ := never_corrupt cfg cksum _ c p h
-  exact ⟨pre, hd, post, a, b, c1, d, e⟩
+  have e : run cfg cksum BQ.empty chunks = decode cfg cksum chunks.flatten := by
+    rw [run_eq_decode cfg cksum _ BQ.empty chunks rfl BQ.empty_inv]
+    simp [BQ.stream, BQ.empty]
+  rw [e] at h ⊢
+  obtain ⟨items, hd, post, a, w, d, b, c1, d1, e1, _⟩ := never_corrupt cfg cksum _ c p h
+  exact ⟨items, hd, post, a, w, d, b, c1, d1, e1⟩
 
 /-- **checksum_error_local**: a message whose checksum does not match raises one
     `BadChecksumError`, consumes 24 + declared-length bytes exactly like a valid one, and what
@@ -411,14 +435,21 @@ theorem command_field_unprotected (cfg : Cfg) (cksum : Bytes → Bytes) (hm : cf
     (by rw [hu]) (by rw [hu]; exact hs)
   simpa using this
 
-/-- a framer whose magic is not 4 bytes wide rejects every header (its own frames included) -/
+/-- a framer whose magic is not 4 bytes wide rejects every header (its own frames included):
+    nothing is ever delivered -/
 theorem bad_magic_width (cfg : Cfg) (hm : cfg.magic.length ≠ 4) (h : Bytes) (hl : h.length = 24) :
-    parseHeader cfg h = .error .badMagic := by
-  rw [parseHeader_badMagic_iff]
-  intro e
-  apply hm
-  rw [← e]
-  simp [hMagic, magicW, hl]
+    parseHeader cfg h = .error .badMagic ∨ parseHeader cfg h = .error .oversized := by
+  have hne : hMagic h ≠ cfg.magic := by
+    intro e
+    apply hm
+    rw [← e]
+    simp [hMagic, magicW, hl]
+  cases ho : oversized cfg (rstripNul (hCmd h)) (hLen h) with
+  | false => exact Or.inl ((parseHeader_badMagic_iff cfg h).2 ⟨hne, by simp [ho]⟩)
+  | true =>
+    cases hs : cfg.sizeFirst with
+    | false => exact Or.inl ((parseHeader_badMagic_iff cfg h).2 ⟨hne, fun _ => hs⟩)
+    | true => exact Or.inr ((parseHeader_oversized_iff cfg h).2 ⟨ho, fun _ => hs⟩)
 
 /-- the header `frame` puts in front of the payload -/
 def hdr (cfg : Cfg) (cksum : Bytes → Bytes) (m : Bytes × Bytes) : Bytes :=
@@ -475,35 +506,92 @@ example : (Sendable cfg0 ([118], [1, 2]) ∧ ∀ p' ∈ (some [3, 2] : Option By
     damagedOut ck0 (([118], [1, 2]), none) = .msg [118] [1, 2] := by
   refine ⟨⟨⟨by decide, by decide, by decide, by decide⟩, by simp⟩, by decide, by decide, by decide⟩
 
-/-- **magic_size_no_delivery**: wrong magic, or right magic with an over-limit length: one
-    error (of the corresponding class, magic tested first), nothing delivered for that header,
-    exactly 24 bytes consumed -/
+/-- **magic_size_no_delivery**: wrong magic or an over-limit length: one error of the
+    corresponding class - for a header that is wrong in *both* ways either class, the text fixes
+    no order (the model follows the order observed on the real code, `cfg.sizeFirst`) - nothing
+    delivered for that header, exactly 24 bytes consumed.  Proved for both orders. -/
 theorem magic_size_no_delivery (cfg : Cfg) (cksum : Bytes → Bytes) (h rest : Bytes)
     (hl : h.length = 24) :
-    (hMagic h ≠ cfg.magic →
+    (hMagic h ≠ cfg.magic → oversized cfg (rstripNul (hCmd h)) (hLen h) = false →
       decode cfg cksum (h ++ rest) = .err .badMagic :: decode cfg cksum rest) ∧
     (hMagic h = cfg.magic → oversized cfg (rstripNul (hCmd h)) (hLen h) = true →
-      decode cfg cksum (h ++ rest) = .err .oversized :: decode cfg cksum rest) := by
-  constructor
-  · intro hne
-    exact decode_rejected_header cfg cksum h rest _ hl ((parseHeader_badMagic_iff cfg h).2 hne)
-  · intro he ho
+      decode cfg cksum (h ++ rest) = .err .oversized :: decode cfg cksum rest) ∧
+    (hMagic h ≠ cfg.magic → oversized cfg (rstripNul (hCmd h)) (hLen h) = true →
+      decode cfg cksum (h ++ rest) =
+        .err (if cfg.sizeFirst then .oversized else .badMagic) :: decode cfg cksum rest) ∧
+    (hMagic h ≠ cfg.magic ∨ oversized cfg (rstripNul (hCmd h)) (hLen h) = true →
+      ∃ e, (e = .badMagic ∨ e = .oversized) ∧
+        decode cfg cksum (h ++ rest) = .err e :: decode cfg cksum rest) := by
+  have both : hMagic h ≠ cfg.magic → oversized cfg (rstripNul (hCmd h)) (hLen h) = true →
+      decode cfg cksum (h ++ rest) =
+        .err (if cfg.sizeFirst then .oversized else .badMagic) :: decode cfg cksum rest := by
+    intro hne ho
+    cases hs : cfg.sizeFirst with
+    | false =>
+      exact decode_rejected_header cfg cksum h rest _ hl
+        ((parseHeader_badMagic_iff cfg h).2 ⟨hne, fun _ => hs⟩)
+    | true =>
+      exact decode_rejected_header cfg cksum h rest _ hl
+        ((parseHeader_oversized_iff cfg h).2 ⟨ho, fun _ => hs⟩)
+  have onlyM : hMagic h ≠ cfg.magic → oversized cfg (rstripNul (hCmd h)) (hLen h) = false →
+      decode cfg cksum (h ++ rest) = .err .badMagic :: decode cfg cksum rest := by
+    intro hne ho
     exact decode_rejected_header cfg cksum h rest _ hl
-      ((parseHeader_oversized_iff cfg h).2 ⟨he, ho⟩)
+      ((parseHeader_badMagic_iff cfg h).2 ⟨hne, by simp [ho]⟩)
+  have onlyS : hMagic h = cfg.magic → oversized cfg (rstripNul (hCmd h)) (hLen h) = true →
+      decode cfg cksum (h ++ rest) = .err .oversized :: decode cfg cksum rest := by
+    intro he ho
+    exact decode_rejected_header cfg cksum h rest _ hl
+      ((parseHeader_oversized_iff cfg h).2 ⟨ho, fun hne => absurd he hne⟩)
+  refine ⟨onlyM, onlyS, both, ?_⟩
+  intro hor
+  by_cases hm : hMagic h = cfg.magic
+  · have ho : oversized cfg (rstripNul (hCmd h)) (hLen h) = true := by
+      rcases hor with h1 | h1
+      · exact absurd hm h1
+      · exact h1
+    exact ⟨_, Or.inr rfl, onlyS hm ho⟩
+  · cases ho : oversized cfg (rstripNul (hCmd h)) (hLen h) with
+    | false => exact ⟨_, Or.inl rfl, onlyM hm ho⟩
+    | true =>
+      refine ⟨_, ?_, both hm ho⟩
+      cases cfg.sizeFirst <;> simp
 
-/-- the three outcomes of a header are exhaustive and exclusive -/
+/-- the outcomes of a header are exhaustive and exclusive: rejected iff the magic is wrong or
+    the length over the limit (class as above), otherwise accepted with the stripped command,
+    the length and the checksum field -/
 theorem header_trichotomy (cfg : Cfg) (h : Bytes) :
-    (parseHeader cfg h = .error .badMagic ∧ hMagic h ≠ cfg.magic) ∨
-    (parseHeader cfg h = .error .oversized ∧ hMagic h = cfg.magic ∧
-      oversized cfg (rstripNul (hCmd h)) (hLen h) = true) ∨
+    (parseHeader cfg h = .error .badMagic ∧ hMagic h ≠ cfg.magic ∧
+      (oversized cfg (rstripNul (hCmd h)) (hLen h) = true → cfg.sizeFirst = false)) ∨
+    (parseHeader cfg h = .error .oversized ∧
+      oversized cfg (rstripNul (hCmd h)) (hLen h) = true ∧
+      (hMagic h ≠ cfg.magic → cfg.sizeFirst = true)) ∨
     (parseHeader cfg h = .ok (rstripNul (hCmd h), hLen h, hCk h) ∧ hMagic h = cfg.magic ∧
       oversized cfg (rstripNul (hCmd h)) (hLen h) = false) := by
   by_cases hm : hMagic h = cfg.magic
   · cases ho : oversized cfg (rstripNul (hCmd h)) (hLen h) with
-    | true => exact Or.inr (Or.inl ⟨(parseHeader_oversized_iff cfg h).2 ⟨hm, ho⟩, hm, rfl⟩)
+    | true =>
+      exact Or.inr (Or.inl ⟨(parseHeader_oversized_iff cfg h).2 ⟨ho, fun hne => absurd hm hne⟩,
+        rfl, fun hne => absurd hm hne⟩)
     | false =>
       exact Or.inr (Or.inr ⟨(parseHeader_ok_iff cfg h _ _ _).2 ⟨hm, rfl, rfl, rfl, ho⟩, hm, rfl⟩)
-  · exact Or.inl ⟨(parseHeader_badMagic_iff cfg h).2 hm, hm⟩
+  · cases ho : oversized cfg (rstripNul (hCmd h)) (hLen h) with
+    | false =>
+      exact Or.inl ⟨(parseHeader_badMagic_iff cfg h).2 ⟨hm, by simp [ho]⟩, hm, by simp⟩
+    | true =>
+      cases hs : cfg.sizeFirst with
+      | false =>
+        exact Or.inl ⟨(parseHeader_badMagic_iff cfg h).2 ⟨hm, fun _ => hs⟩, hm, fun _ => rfl⟩
+      | true =>
+        exact Or.inr (Or.inl ⟨(parseHeader_oversized_iff cfg h).2 ⟨ho, fun _ => hs⟩, rfl,
+          fun _ => rfl⟩)
+
+/-- non-vacuity of the "wrong in both ways" case, for both orders: magic `e3e1f3e9`, length 100 -/
+example :
+    parseHeader cfg0 ([0xe3, 0xe1, 0xf3, 0xe9] ++ List.replicate 12 0 ++ [100, 0, 0, 0] ++
+      [0, 0, 0, 0]) = .error .badMagic ∧
+    parseHeader cfg1 ([0xe3, 0xe1, 0xf3, 0xe9] ++ List.replicate 12 0 ++ [100, 0, 0, 0] ++
+      [0, 0, 0, 0]) = .error .oversized := by decide
 
 /-- non-vacuity for the three theorems above: a bad-checksum frame between two good ones -/
 example : decode cfg0 ck0
@@ -572,10 +660,19 @@ def msgOf : Out → Option (Bytes × Bytes)
   | .msg c p => some (c, p)
   | .err _ => none
 
-/-- the outcomes the loop gets to see: up to and including the first fatal one -/
-def upToFatal : List Out → List Out
-  | [] => []
-  | o :: r => if fatal o then [o] else o :: upToFatal r
+/-- the outcomes the loop gets to see when the transport reports the loss after `g` further
+    magic/size errors: everything up to and including the `(g+1)`-th magic/size error -/
+def seen : Nat → List Out → List Out
+  | _, [] => []
+  | g, o :: r =>
+      if fatal o then
+        match g with
+        | 0 => [o]
+        | g' + 1 => o :: seen g' r
+      else o :: seen g r
+
+/-- ... when the loss is reported at once: up to and including the first magic/size error -/
+def upToFatal (outs : List Out) : List Out := seen 0 outs
 
 /-- the decision table: every framing error is counted exactly once; the connection is closed
     exactly for `BadMagicError` and `OversizedPayloadError` -/
@@ -583,18 +680,18 @@ theorem policy_table (e : FrameErr) :
     (policy e).bump = 1 ∧ ((policy e).close = true ↔ e = .badMagic ∨ e = .oversized) := by
   cases e <;> simp [policy]
 
-theorem sessRun_spec (outs : List Out) : ∀ s : Sess, s.closed = false →
-    (sessRun outs s).errors = s.errors + ((upToFatal outs).filter isErr).length ∧
-    (sessRun outs s).closed = outs.any fatal ∧
-    (sessRun outs s).delivered = s.delivered ++ (upToFatal outs).filterMap msgOf := by
+theorem sessRunG_spec (outs : List Out) : ∀ (g : Nat) (s : Sess),
+    (sessRunG g outs s).errors = s.errors + ((seen g outs).filter isErr).length ∧
+    (sessRunG g outs s).closed = (s.closed || outs.any fatal) ∧
+    (sessRunG g outs s).delivered = s.delivered ++ (seen g outs).filterMap msgOf := by
   induction outs with
-  | nil => intro s hs; simp [sessRun, upToFatal, hs]
+  | nil => intro g s; simp [sessRunG, seen]
   | cons o r ih =>
-    intro s hs
+    intro g s
     cases o with
     | msg c p =>
-      obtain ⟨a, b, c'⟩ := ih { s with delivered := s.delivered ++ [(c, p)] } hs
-      simp only [sessRun, upToFatal, fatal, Bool.false_eq_true, ↓reduceIte, List.any_cons,
+      obtain ⟨a, b, c'⟩ := ih g { s with delivered := s.delivered ++ [(c, p)] }
+      simp only [sessRunG, seen, fatal, Bool.false_eq_true, ↓reduceIte, List.any_cons,
         Bool.false_or]
       refine ⟨?_, b, ?_⟩
       · rw [a]; simp [isErr]
@@ -602,45 +699,107 @@ theorem sessRun_spec (outs : List Out) : ∀ s : Sess, s.closed = false →
     | err e =>
       cases e with
       | badChecksum =>
-        obtain ⟨a, b, c'⟩ := ih { s with errors := s.errors + 1, closed := s.closed || false }
-          (by simp [hs])
-        simp only [sessRun, policy, upToFatal, fatal, Bool.false_eq_true, ↓reduceIte,
+        obtain ⟨a, b, c'⟩ := ih g { s with errors := s.errors + 1, closed := s.closed || false }
+        simp only [sessRunG, policy, seen, fatal, Bool.false_eq_true, ↓reduceIte,
           List.any_cons, Bool.false_or]
-        refine ⟨?_, b, ?_⟩
+        refine ⟨?_, ?_, ?_⟩
         · rw [a]; simp [List.filter_cons, isErr]; omega
+        · rw [b]; simp
         · rw [c']; simp [List.filterMap_cons, msgOf]
       | badMagic =>
-        simp [sessRun, policy, upToFatal, fatal, List.filter_cons, List.filterMap_cons, isErr,
-          msgOf, hs]
+        cases g with
+        | zero =>
+          simp [sessRunG, policy, seen, fatal, List.filter_cons, List.filterMap_cons, isErr, msgOf]
+        | succ g' =>
+          obtain ⟨a, b, c'⟩ := ih g' { s with errors := s.errors + 1, closed := s.closed || true }
+          simp only [sessRunG, policy, seen, fatal, ↓reduceIte, List.any_cons, Bool.true_or]
+          refine ⟨?_, ?_, ?_⟩
+          · rw [a]; simp [List.filter_cons, isErr]; omega
+          · rw [b]; simp
+          · rw [c']; simp [List.filterMap_cons, msgOf]
       | oversized =>
-        simp [sessRun, policy, upToFatal, fatal, List.filter_cons, List.filterMap_cons, isErr,
-          msgOf, hs]
+        cases g with
+        | zero =>
+          simp [sessRunG, policy, seen, fatal, List.filter_cons, List.filterMap_cons, isErr, msgOf]
+        | succ g' =>
+          obtain ⟨a, b, c'⟩ := ih g' { s with errors := s.errors + 1, closed := s.closed || true }
+          simp only [sessRunG, policy, seen, fatal, ↓reduceIte, List.any_cons, Bool.true_or]
+          refine ⟨?_, ?_, ?_⟩
+          · rw [a]; simp [List.filter_cons, isErr]; omega
+          · rw [b]; simp
+          · rw [c']; simp [List.filterMap_cons, msgOf]
 
-/-- **session_policy**: started fresh on any sequence of framer outcomes, the session's `errors`
-    is the number of framing errors up to and including the first magic/size error (each counted
-    once), it requested `close` iff there was a magic/size error, and `handle_message` saw
-    exactly the messages delivered before that point, in order -/
-theorem session_policy (outs : List Out) :
+/-- **session_policy**: started fresh on any sequence of framer outcomes, whenever the transport
+    reports the loss (`g`): the session's `errors` is the number of framing errors among the
+    outcomes it got to see (each counted once) - all outcomes up to and including the `(g+1)`-th
+    magic/size error -, it requested `close` iff there was a magic/size error, and
+    `handle_message` saw exactly the messages among the outcomes it got to see, in order.  For
+    `g = 0` (loss reported at once) that is: up to and including the first magic/size error. -/
+theorem session_policy (g : Nat) (outs : List Out) :
+    (sessRunG g outs Sess.init).errors = ((seen g outs).filter isErr).length ∧
+    (sessRunG g outs Sess.init).closed = outs.any fatal ∧
+    (sessRunG g outs Sess.init).delivered = (seen g outs).filterMap msgOf ∧
     (sessRun outs Sess.init).errors = ((upToFatal outs).filter isErr).length ∧
-    (sessRun outs Sess.init).closed = outs.any fatal ∧
     (sessRun outs Sess.init).delivered = (upToFatal outs).filterMap msgOf := by
-  have := sessRun_spec outs Sess.init rfl
-  simpa [Sess.init] using this
+  have h := sessRunG_spec outs g Sess.init
+  have h0 := sessRunG_spec outs 0 Sess.init
+  simp only [Sess.init, Nat.zero_add, Bool.false_or, List.nil_append] at h h0
+  exact ⟨h.1, h.2.1, h.2.2, h0.1, h0.2.2⟩
+
+/-- what the session got to see is a prefix of what the framer produced ... -/
+theorem session_seen_prefix : ∀ (g : Nat) (outs : List Out), seen g outs <+: outs
+  | _, [] => by simp [seen]
+  | g, o :: r => by
+    unfold seen
+    split
+    · cases g with
+      | zero => exact ⟨r, rfl⟩
+      | succ g' =>
+        obtain ⟨t, ht⟩ := session_seen_prefix g' r
+        exact ⟨t, by simp [ht]⟩
+    · obtain ⟨t, ht⟩ := session_seen_prefix g r
+      exact ⟨t, by simp [ht]⟩
+
+/-- ... and all of it when the loss is reported late enough -/
+theorem seen_all : ∀ (g : Nat) (outs : List Out), (outs.filter fatal).length ≤ g →
+    seen g outs = outs
+  | _, [], _ => by simp [seen]
+  | g, o :: r, h => by
+    unfold seen
+    by_cases hf : fatal o = true
+    · simp only [List.filter_cons, hf, ↓reduceIte, List.length_cons] at h
+      cases g with
+      | zero => omega
+      | succ g' => simp [hf, seen_all g' r (by omega)]
+    · simp only [List.filter_cons, hf, Bool.false_eq_true, ↓reduceIte] at h
+      simp [hf, seen_all g r h]
+
+/-- **session_loss_late**: a transport that reports the loss late (or never, before it is
+    aborted) does not stop the session from counting: every framing error that is raised to it
+    is counted, every delivered message is handled - the session keeps reading after a
+    magic/size error until the loss is delivered -/
+theorem session_loss_late (g : Nat) (outs : List Out) (h : (outs.filter fatal).length ≤ g) :
+    (sessRunG g outs Sess.init).errors = (outs.filter isErr).length ∧
+    (sessRunG g outs Sess.init).closed = outs.any fatal ∧
+    (sessRunG g outs Sess.init).delivered = outs.filterMap msgOf := by
+  obtain ⟨a, b, c, _⟩ := session_policy g outs
+  rw [seen_all g outs h] at a c
+  exact ⟨a, b, c⟩
 
 /-- without a magic/size error nothing is cut off: all errors are counted, all messages are
     handled, the connection stays open -/
-theorem session_no_fatal (outs : List Out) (h : outs.any fatal = false) :
-    (sessRun outs Sess.init).errors = (outs.filter isErr).length ∧
-    (sessRun outs Sess.init).closed = false ∧
-    (sessRun outs Sess.init).delivered = outs.filterMap msgOf := by
-  have e : upToFatal outs = outs := by
-    induction outs with
-    | nil => rfl
-    | cons o r ih =>
-      simp only [List.any_cons, Bool.or_eq_false_iff] at h
-      simp [upToFatal, h.1, ih h.2]
-  obtain ⟨a, b, c⟩ := session_policy outs
-  rw [e] at a c
+theorem session_no_fatal (g : Nat) (outs : List Out) (h : outs.any fatal = false) :
+    (sessRunG g outs Sess.init).errors = (outs.filter isErr).length ∧
+    (sessRunG g outs Sess.init).closed = false ∧
+    (sessRunG g outs Sess.init).delivered = outs.filterMap msgOf := by
+  have hf : (outs.filter fatal).length ≤ g := by
+    have : outs.filter fatal = [] := by
+      rw [List.filter_eq_nil_iff]
+      intro o ho
+      have := List.any_eq_false.1 h o ho
+      simpa using this
+    simp [this]
+  obtain ⟨a, b, c⟩ := session_loss_late g outs hf
   exact ⟨a, by rw [b, h], c⟩
 
 /-- end to end for the "mismatch raises for that message only" clause: a session fed (in any
@@ -649,8 +808,9 @@ theorem session_no_fatal (outs : List Out) (h : outs.any fatal = false) :
 theorem session_damaged_sequence (cfg : Cfg) (cksum : Bytes → Bytes) (hm : cfg.magic.length = 4)
     (hk : CkLaw cksum) (xs : List ((Bytes × Bytes) × Option Bytes))
     (hs : ∀ x ∈ xs, Sendable cfg x.1 ∧ ∀ p' ∈ x.2, p'.length = x.1.2.length)
-    (chunks : List Bytes) (hc : chunks.flatten = (xs.map (damagedWire cfg cksum)).flatten) :
-    let s := sessRun (run cfg cksum BQ.empty chunks) Sess.init
+    (chunks : List Bytes) (hc : chunks.flatten = (xs.map (damagedWire cfg cksum)).flatten)
+    (g : Nat) :
+    let s := sessRunG g (run cfg cksum BQ.empty chunks) Sess.init
     s.errors = ((xs.map (damagedOut cksum)).filter isErr).length ∧ s.closed = false ∧
     s.delivered = (xs.map (damagedOut cksum)).filterMap msgOf := by
   have e : run cfg cksum BQ.empty chunks = xs.map (damagedOut cksum) := by
@@ -671,116 +831,154 @@ theorem session_damaged_sequence (cfg : Cfg) (cksum : Bytes → Bytes) (hm : cfg
       split <;> simp [fatal, policy]
   simp only
   rw [e]
-  exact session_no_fatal _ nf
+  exact session_no_fatal g _ nf
 
 /-- end to end: the session on a chunked byte stream depends only on the concatenation -/
 theorem session_chunking_independent (cfg : Cfg) (cksum : Bytes → Bytes) (cs cs' : List Bytes)
-    (h : cs.flatten = cs'.flatten) :
-    sessRun (run cfg cksum BQ.empty cs) Sess.init = sessRun (run cfg cksum BQ.empty cs') Sess.init := by
+    (h : cs.flatten = cs'.flatten) (g : Nat) :
+    sessRunG g (run cfg cksum BQ.empty cs) Sess.init =
+      sessRunG g (run cfg cksum BQ.empty cs') Sess.init := by
   rw [chunking_independent cfg cksum cs cs' h]
 
-example : sessRun [.msg [1] [], .err .badChecksum, .msg [2] [], .err .oversized, .msg [3] []]
-    Sess.init = ⟨2, true, [([1], []), ([2], [])]⟩ := by decide
+/-- non-vacuity: loss reported at once / after one more magic-size error / never -/
+example : sessRun [.msg [1] [], .err .badChecksum, .msg [2] [], .err .oversized, .msg [3] [],
+      .err .badMagic, .msg [4] [], .err .badMagic, .msg [5] []] Sess.init =
+    ⟨2, true, [([1], []), ([2], [])]⟩ := by decide
+example : sessRunG 1 [.msg [1] [], .err .badChecksum, .msg [2] [], .err .oversized, .msg [3] [],
+      .err .badMagic, .msg [4] [], .err .badMagic, .msg [5] []] Sess.init =
+    ⟨3, true, [([1], []), ([2], []), ([3], [])]⟩ := by decide
+example : sessRunG 9 [.msg [1] [], .err .badChecksum, .msg [2] [], .err .oversized, .msg [3] [],
+      .err .badMagic, .msg [4] [], .err .badMagic, .msg [5] []] Sess.init =
+    ⟨4, true, [([1], []), ([2], []), ([3], []), ([4], []), ([5], [])]⟩ := by decide
 
-/-! ## 7. Facts read from the current source tree -/
+/-! ## 7. Facts: what the real classes did on grids (regenerated from /repo on every run by
+    `tools/facts/c07.py`, which only RUNS the public API), reproduced by the model -/
 
-/-- outcome code used by the generated decision grid -/
-def gridCode : Except FrameErr (Bytes × Nat × Bytes) → Nat
-  | .ok _ => 0
-  | .error .badMagic => 1
-  | .error .oversized => 2
-  | .error .badChecksum => 3
+/-- a checksum function given by a finite table (4 zero bytes outside it) -/
+def tableCk (t : List (Bytes × Bytes)) (p : Bytes) : Bytes :=
+  match t.find? (fun e => e.1 == p) with
+  | some e => e.2
+  | none => [0, 0, 0, 0]
 
-/-- `Struct('<4s12sI4s')`: little-endian, no padding, fields of 4, 12, 4, 4 bytes read as bytes,
-    bytes, unsigned int, bytes; the header read is 24 bytes -/
-theorem facts_struct :
-    Facts.C07.unpackOrder = '<' ∧
-    Facts.C07.unpackItems = [(magicW, 's'), (cmdW, 's'), (1, 'I'), (ckW, 's')] ∧
-    Facts.C07.unpackItemSizes = [magicW, cmdW, lenW, ckW] ∧
-    Facts.C07.unpackSize = headerLen ∧
-    Facts.C07.headerReceiveSizes = [headerLen] := by decide
+theorem tableCk_law (t : List (Bytes × Bytes)) (h : ∀ e ∈ t, e.2.length = 4) :
+    CkLaw (tableCk t) := by
+  intro p
+  unfold tableCk
+  split
+  · rename_i e he
+    exact h e (List.mem_of_find?_eq_some he)
+  · rfl
 
-/-- `pack_le_uint32` is `Struct('<I').pack`: little-endian, fails from 2^32 on -/
-theorem facts_pack :
-    Facts.C07.packIsLE32 = true ∧
-    packLe32 Facts.C07.packMaxOk = .ok (le32 Facts.C07.packMaxOk) ∧
-    packLe32 Facts.C07.packFirstBad = .error .structError ∧
-    Facts.C07.packFirstBad = Facts.C07.packMaxOk + 1 ∧
-    le32 0x04030201 = Facts.C07.packSample := by decide
+/-- the checksum function of the generated tables: the first four bytes of the double SHA-256
+    (computed with hashlib) of every byte string that gets checksummed on the grids -/
+noncomputable def factsCk : Bytes → Bytes := tableCk Facts.C07.ckTable
 
-/-- `_pad_command` accepts exactly lengths 0..12 and pads with NUL bytes to 12 -/
-theorem facts_pad :
-    Facts.C07.padOkLengths = List.range (cmdW + 1) ∧
-    padCommand [97, 98] = .ok Facts.C07.padSample := by decide
+/-- it satisfies the one law the theorems assume, so they all apply to it -/
+theorem facts_ck_law : CkLaw factsCk :=
+  tableCk_law _ (by decide +kernel)
 
-/-- `_checksum` is the first 4 bytes of the double SHA-256 -/
-theorem facts_checksum :
-    Facts.C07.checksumIsDoubleSha4 = true ∧ Facts.C07.checksumLengths = [ckW] := by decide
+/-- decoding of an outcome in the generated tables -/
+def outOfCode : Nat × Bytes × Bytes → Option Out
+  | (0, c, p) => some (.msg c p)
+  | (1, _, _) => some (.err .badMagic)
+  | (2, _, _) => some (.err .oversized)
+  | (3, _, _) => some (.err .badChecksum)
+  | _ => none
 
-/-- the literals of `_receive_header` -/
-theorem facts_literals :
-    Facts.C07.rstripArg = [0] ∧ Facts.C07.blockLiteral = blockCmd := by decide
+/-- `decode` with explicit fuel (structural, so that the kernel can evaluate it) -/
+def decodeF (cfg : Cfg) (cksum : Bytes → Bytes) : Nat → Bytes → List Out
+  | 0, _ => []
+  | f + 1, s =>
+      match step cfg cksum s with
+      | none => []
+      | some (o, s') => o :: decodeF cfg cksum f s'
 
-/-- the real `_receive_header`, run on a grid of headers (every command variant × every declared
-    length from 0 to two past the larger limit, for three limit configurations; every single-bit
-    corruption of the magic with a small and an over-limit length), decides as `parseHeader` -/
-theorem facts_grid :
-    Facts.C07.grid.all (fun g =>
-      gridCode (parseHeader ⟨Facts.C07.gridMagic, g.1, g.2.1⟩ g.2.2.1) == g.2.2.2) = true := by
+theorem decodeF_eq (cfg : Cfg) (cksum : Bytes → Bytes) : ∀ (f : Nat) (s : Bytes),
+    s.length ≤ f → decodeF cfg cksum f s = decode cfg cksum s
+  | 0, s, h => by
+    have : s.length < 24 := by omega
+    rw [decodeF, decode_eq, step_none_short cfg cksum s this]
+  | f + 1, s, h => by
+    rw [decodeF, decode_eq]
+    cases hs : step cfg cksum s with
+    | none => rfl
+    | some v =>
+      obtain ⟨o, s'⟩ := v
+      have := step_measure hs
+      simp only
+      rw [decodeF_eq cfg cksum f s' (by omega)]
+
+/-- the configuration of a grid row: the grid's magic, the row's limits, and the order of the
+    magic and size tests **as observed** on the real code (a header wrong in both ways was fed
+    to `receive_message`) -/
+def gridCfg (mp mb : Nat) : Cfg := ⟨Facts.C07.gridMagic, mp, mb, Facts.C07.sizeFirst⟩
+
+/-- **the decision grid of the real `receive_message`**: on every stream of the grid (every raw
+    command field variant - NUL in front, inside, at the end - × every declared length from 0
+    to two past the larger limit × three limit configurations, good / bad checksum, truncated
+    payload and header; every single-bit corruption of the magic alone and together with an
+    over-limit length; each followed by a further message) the successive outcomes of the real
+    framer - delivered command and payload included - are the model's `decode` -/
+theorem facts_recv :
+    ∀ r ∈ Facts.C07.recvGrid,
+      (decode (gridCfg r.1 r.2.1) factsCk r.2.2.1).map some = r.2.2.2.map outOfCode := by
+  intro r hr
+  rw [← decodeF_eq _ _ r.2.2.1.length _ (Nat.le_refl _)]
+  revert r
   decide +kernel
 
-/-- a header built by the real `_build_header` is the model's header for the same inputs -/
-theorem facts_sample_header :
-    buildHeader ⟨Facts.C07.gridMagic, 0, 0⟩ (fun _ => Facts.C07.sampleChecksum) [118, 101, 114]
-      Facts.C07.samplePayload = .ok Facts.C07.sampleHeader := by decide
+/-- result code of the model's `frame` as in the generated table -/
+def frameCode : Except PyExc Bytes → Nat × Bytes
+  | .ok b => (0, b)
+  | .error .valueError => (1, [])
+  | .error .structError => (2, [])
 
-/-- a frame built by the real `frame()` is the model's frame (header, then payload) -/
-theorem facts_sample_frame :
-    frame ⟨Facts.C07.gridMagic, 0, 0⟩ (fun _ => Facts.C07.sampleChecksum) [118, 101, 114]
-      Facts.C07.samplePayload = .ok Facts.C07.sampleFrame := by decide
+/-- **the table of the real `frame()`**: commands of 0..14 bytes (NUL in front / inside / at the
+    end), four payload sizes, magics of 0, 3, 4 and 5 bytes, a long command directly before a
+    short one on the same framer: bytes returned / `ValueError` are the model's -/
+theorem facts_frame :
+    ∀ r ∈ Facts.C07.frameTable,
+      frameCode (frame ⟨r.1, 0, 0, false⟩ factsCk r.2.1 r.2.2.1) = (r.2.2.2.1, r.2.2.2.2) := by
+  decide +kernel
 
-/-- the handlers that unpack `e.args` expect as many values as every `raise` site of that class
-    supplies (otherwise the handler itself would fail before `_bump_errors`) -/
-theorem facts_exception_args :
-    [Facts.C07.argsBadMagic, Facts.C07.argsOversized, Facts.C07.argsBadChecksum].all
-      (fun a => a.2 == -1 || a.1.all (fun n => (n : Int) == a.2)) = true := by decide
+/-- the length field at its boundaries (payloads whose `len()` claims 2^k - 1 / 2^k bytes):
+    packed little-endian below 2^32, `struct.error` from 2^32 on - as `packLe32` -/
+theorem facts_pack :
+    ∀ r ∈ Facts.C07.packProbe,
+      (match packLe32 r.1 with
+       | .ok l => ((0 : Nat), l)
+       | .error _ => (2, [])) = (r.2.1, (r.2.2.drop 16).take 4) := by
+  decide +kernel
 
-/-- the `except` ladder of `MessageSession._process_messages_loop`, resolved against the live
-    exception classes: each of the three framing errors is caught, its handler calls
-    `_bump_errors` as often as `policy` says, requests `close` iff `policy` says so, and does
-    not leave the `while True` loop; the `else` branch hands the message to `handle_message`
-    without touching `errors`; nothing catches plain `Exception` (so `ConnectionLostError`
-    ends the loop) -/
-theorem facts_ladder :
-    Facts.C07.ladderFound = true ∧ Facts.C07.loopForever = true ∧
-    Facts.C07.catchesGeneric = false ∧ Facts.C07.errorsPerBump = 1 ∧
-    (∀ e : FrameErr,
-      let arm := match e with
-        | .badMagic => Facts.C07.armBadMagic
-        | .oversized => Facts.C07.armOversized
-        | .badChecksum => Facts.C07.armBadChecksum
-      0 ≤ arm.1 ∧ arm.2.1 = (policy e).bump ∧ (decide (0 < arm.2.2.1)) = (policy e).close ∧
-      arm.2.2.2 = 0) ∧
-    Facts.C07.armElse = (0, 0, 0, 1) ∧ Facts.C07.throttledCallsHandleMessage = 1 := by
-  refine ⟨by decide, by decide, by decide, by decide, ?_, by decide, by decide⟩
-  intro e
-  cases e <;> decide
+/-- **the table of the real `MessageSession`** on a fake transport: every sequence of at most
+    three items of the kinds valid / bad checksum / bad magic / oversize (and four longer ones),
+    followed by a valid message, with the transport reporting the loss at once (`g = gSoon`),
+    2.5 ms after `close()` (`g = gLate`) or not at all (`g = gNever`) - `gSoon`, `gLate` being
+    the number of further magic/size errors a probe session counted under that timing -:
+    `errors`, "close requested" and the messages that reached `handle_message` are `sessRunG g`
+    of the framer's outcomes.  (This
+    replaces reading the `except` ladder from the source: the handlers are run, with the
+    exception objects the real framer raises.) -/
+theorem facts_session :
+    ∀ r ∈ Facts.C07.sessTable,
+      (r.2.1.mapM outOfCode).map (fun outs => sessRunG r.1 outs Sess.init) =
+        some ⟨r.2.2.1, r.2.2.2.1, r.2.2.2.2⟩ := by
+  decide +kernel
 
 /-- the defaults: 4-byte magic (so the general theorems apply to `BitcoinFramer()`), and
     `MessageSession.default_framer()` is a `BitcoinFramer` -/
 theorem facts_defaults :
     Facts.C07.defaultMagic.length = magicW ∧ Facts.C07.defaultFramerIsBitcoin = true := by decide
 
+/-- the configuration of `BitcoinFramer()` as read from the running code -/
+def defaultCfg : Cfg :=
+  ⟨Facts.C07.defaultMagic, Facts.C07.maxPayloadSize, Facts.C07.maxBlockSize, Facts.C07.sizeFirst⟩
+
 /-- the round trip instantiated with the defaults read from the source -/
 theorem frame_roundtrip_defaults (cksum : Bytes → Bytes) (hk : CkLaw cksum)
-    (msgs : List (Bytes × Bytes))
-    (hs : ∀ m ∈ msgs, Sendable ⟨Facts.C07.defaultMagic, Facts.C07.maxPayloadSize,
-      Facts.C07.maxBlockSize⟩ m)
-    (chunks : List Bytes)
-    (hc : chunks.flatten = (msgs.map (wire ⟨Facts.C07.defaultMagic, Facts.C07.maxPayloadSize,
-      Facts.C07.maxBlockSize⟩ cksum)).flatten) :
-    run ⟨Facts.C07.defaultMagic, Facts.C07.maxPayloadSize, Facts.C07.maxBlockSize⟩ cksum
-      BQ.empty chunks = msgs.map (fun m => Out.msg m.1 m.2) :=
+    (msgs : List (Bytes × Bytes)) (hs : ∀ m ∈ msgs, Sendable defaultCfg m)
+    (chunks : List Bytes) (hc : chunks.flatten = (msgs.map (wire defaultCfg cksum)).flatten) :
+    run defaultCfg cksum BQ.empty chunks = msgs.map (fun m => Out.msg m.1 m.2) :=
   (frame_roundtrip _ cksum facts_defaults.1 hk msgs hs chunks hc).2
 
 end Aiorpcx.C07
